@@ -20,6 +20,7 @@
      pinned   = the tree as found   (format consumed after a successful open; tag buffer terminated at byte 32 only)
      repaired = after the fix: commits (format consumed before the open; tag terminated at gcount). *)
 From OM Require Import Base.Lists.
+From OM Require Maths.IOFront.     (* C07's model of the front end: the byte class is_text is shared *)
 Local Open Scope Z_scope.
 
 Inductive fmt := Matlab | Ascii | Tex | Bin.
@@ -43,9 +44,11 @@ Definition E_UNKN_FILE_SUFFIX : Z := 146.
    (std::invalid_argument = 1, anything else = 3): propagates through load/save. *)
 Definition is_maths (v : Z) : bool := (128 <=? v) && (v <? 1000).
 
-Record cfg := { consume_before_open : bool; tag_at_gcount : bool }.
-Definition pinned : cfg := {| consume_before_open := false; tag_at_gcount := false |}.
-Definition repaired : cfg := {| consume_before_open := true; tag_at_gcount := true |}.
+(* whole_tag: ReadTag hands all the bytes read (null characters included) to identify, and the text format requires
+   every one of them to be printable or white space (C07's fix of the binary-file-starting-with-a-digit defect) *)
+Record cfg := { consume_before_open : bool; tag_at_gcount : bool; whole_tag : bool }.
+Definition pinned : cfg := {| consume_before_open := false; tag_at_gcount := false; whole_tag := false |}.
+Definition repaired : cfg := {| consume_before_open := true; tag_at_gcount := true; whole_tag := true |}.
 
 Record world := {
   w_ios : list fmt;            (* iteration order of MathsIO::ios() (a std::set of pointers: address order) *)
@@ -104,6 +107,10 @@ Definition read_tag (c : cfg) (old : list Z) (head : list Z) : list Z :=
 Fixpoint cstr (b : list Z) : list Z :=
   match b with [] => [] | x :: t => if x =? 0 then [] else x :: cstr t end.
 
+(* the string handed to identify: pinned std::string(buffer) (up to the first NUL), repaired std::string(buffer,gcount) *)
+Definition tag_string (c : cfg) (b : list Z) (head : list Z) : list Z :=
+  if whole_tag c then firstn (length head) b else cstr b.
+
 (* ---- identify ---- *)
 Fixpoint prefixb (p s : list Z) : bool :=
   match p, s with
@@ -142,11 +149,11 @@ Definition ascii_identify (s : list Z) : bool :=
   | x :: t => if (x =? 43) || (x =? 45) then mant t false false else mant (x :: t) false false
   end.
 
-Definition identify (g : fmt) (s : list Z) : bool :=
+Definition identify (c : cfg) (g : fmt) (s : list Z) : bool :=
   match g with
   | Matlab => prefixb MAGIC_MATLAB s
   | Tex => prefixb MAGIC_TEX s
-  | Ascii => ascii_identify s
+  | Ascii => (if whole_tag c then forallb Maths.IOFront.is_text s else true) && ascii_identify s
   | Bin => true
   end.
 
@@ -168,11 +175,11 @@ Definition op_read (c : cfg) (W : world) (k : kind) (n : nat) (s : state) : stat
       let b := read_tag c (tag p0) (head_of W ct) in
       let p1 := {| cur := cur p0; perm := perm p0; tag := b |} in
       let '(dio, p2) := if early then (dio0, p1) else get_current p1 in
-      let str := cstr b in
+      let str := tag_string c b (head_of W ct) in
       match dio with
-      | Some g => if identify g str then ((p2, fs), (rd_of W ct g k, [g])) else ((p2, fs), (E_NO_IO, []))
+      | Some g => if identify c g str then ((p2, fs), (rd_of W ct g k, [g])) else ((p2, fs), (E_NO_IO, []))
       | None =>
-          match find (fun g => identify g str) (w_ios W) with
+          match find (fun g => identify c g str) (w_ios W) with
           | Some g => ((p2, fs), (rd_of W ct g k, [g]))
           | None => ((p2, fs), (E_NO_IO, []))
           end
@@ -206,11 +213,11 @@ Definition op_info (c : cfg) (W : world) (n : nat) (s : state) : state * result 
   | EFile ct =>
       let b := read_tag c (tag p) (head_of W ct) in
       let p1 := {| cur := cur p; perm := perm p; tag := b |} in
-      let str := cstr b in
+      let str := tag_string c b (head_of W ct) in
       match cur p with
-      | Some g => if identify g str then ((p1, fs), (inf_of W ct g, [g])) else ((p1, fs), (E_NO_IO, []))
+      | Some g => if identify c g str then ((p1, fs), (inf_of W ct g, [g])) else ((p1, fs), (E_NO_IO, []))
       | None =>
-          match find (fun g => identify g str) (w_ios W) with
+          match find (fun g => identify c g str) (w_ios W) with
           | Some g => ((p1, fs), (inf_of W ct g, [g]))
           | None => ((p1, fs), (E_NO_IO, []))
           end
